@@ -78,6 +78,7 @@ def explore(contract: Contract, index: Index, registry=None, max_paths=MAX_PATHS
             args = contract.setup(s, case_name)
             it = Interp(ctx, index, contracts=callee, inline=set(contract.inline))
             s.it = it
+            it.opaque_calls = set(getattr(contract, "opaque_calls", ()))
             it.loop_specs = _loop_specs(contract, fi, s, args)
             outcome, value, exc, reason, line = "return", None, None, "", None
             self_val = args.pop("__self__", None) if isinstance(args, dict) else None
